@@ -41,7 +41,10 @@ const STATUSES: [u16; 10] = [200, 201, 302, 400, 401, 403, 404, 429, 500, 503];
 const CTS: [Option<&str>; 4] = [Some("application/json"), None, Some("Application/JSON; charset=utf-8"), Some("text/html")];
 const BODIES: [&str; 6] = ["json", "empty", "binary", "64k", "chunked", "close-delimited"];
 const REQ_BODIES: [&str; 4] = ["small", "1k", "64k", "bytes256"];
-const FAULTS: [&str; 6] = ["refused", "closed-before-reply", "truncated-200", "truncated-400", "garbage-binary", "garbage-status-line"];
+const FAULTS: [&str; 9] = [
+    "refused", "closed-before-reply", "truncated-200", "truncated-400", "closed-after-head", "truncated-chunked-at-boundary",
+    "truncated-chunked", "garbage-binary", "garbage-status-line",
+];
 const TARGET: &str = "/token?tenant=a%20b&x=1";
 const WATCHDOG: Duration = Duration::from_secs(5);
 
@@ -104,6 +107,7 @@ enum Framing {
 enum Action {
     Reply { status: u16, content_type: Option<String>, location: bool, body: Vec<u8>, framing: Framing },
     CloseBeforeReply,
+    Stall,
     Truncated { status: u16, content_type: Option<String>, declared: usize, sent: Vec<u8> },
     Garbage(Vec<u8>),
 }
@@ -260,6 +264,7 @@ fn serve(mut s: TcpStream, action: &Action, port: u16) -> Captured {
     };
     match &action {
         Action::CloseBeforeReply => {}
+        Action::Stall => std::thread::sleep(WATCHDOG + Duration::from_millis(1500)),
         Action::Garbage(g) => {
             let _ = s.write_all(g);
         }
@@ -498,6 +503,8 @@ struct CaseRun {
     /// op line for the model driver (None when the outcome is not expressible: hang / panic)
     line: Option<String>,
     summary: String,
+    /// names of the request headers the server saw (informational: how each engine frames the request)
+    req_headers: Vec<String>,
 }
 
 fn hopt_b(o: Option<&[u8]>) -> String {
@@ -553,6 +560,34 @@ fn run_case(c: &Case) -> Result<CaseRun, String> {
                     None,
                 )
             }
+            // complete head announcing 81 bytes, not one body byte, connection closed
+            "closed-after-head" => {
+                let ct = "application/json".to_string();
+                (
+                    Some(vec![Action::Truncated { status: 200, content_type: Some(ct.clone()), declared: reply_body("json").len(), sent: Vec::new() }]),
+                    format!("f 2 200 {}", hex(ct.as_bytes())),
+                    None,
+                )
+            }
+            // chunked reply cut INSIDE its second chunk, connection closed (model: Fault.truncatedChunked)
+            "truncated-chunked" => (
+                Some(vec![Action::Garbage(
+                    b"HTTP/1.1 200 OK\r\nContent-Type: application/json\r\nTransfer-Encoding: chunked\r\nConnection: close\r\n\r\n10\r\n{\"access_token\":\r\n20\r\n\"at-12345\",\"tok".to_vec(),
+                )]),
+                format!("f 4 200 {} {}", hex(b"application/json"), hex(b"{\"access_token\":\"at-12345\",\"tok")),
+                None,
+            ),
+            // chunked reply cut between chunks: one complete chunk, no terminating 0-chunk
+            "truncated-chunked-at-boundary" => (
+                Some(vec![Action::Garbage(
+                    b"HTTP/1.1 200 OK\r\nContent-Type: application/json\r\nTransfer-Encoding: chunked\r\nConnection: close\r\n\r\n10\r\n{\"access_token\":\r\n".to_vec(),
+                )]),
+                format!("f 2 200 {}", hex(b"application/json")),
+                None,
+            ),
+            // not part of the matrix (a silent server is not one of the property's faults); reachable
+            // through --replay only, to exercise the watchdog path of this harness
+            "stall" => (Some(vec![Action::Stall]), "f 1".to_string(), None),
             "garbage-binary" => (Some(vec![Action::Garbage(b"\x7f\x00\xffthis is not HTTP\x01\r\n\r\n".to_vec())]), "f 3".to_string(), None),
             "garbage-status-line" => (
                 Some(vec![Action::Garbage(b"HTTP/1.1 2x0 Maybe\r\nContent-Length: 2\r\nConnection: close\r\n\r\n{}".to_vec())]),
@@ -683,7 +718,8 @@ fn run_case(c: &Case) -> Result<CaseRun, String> {
             Ret::Hang => "HANG".into(),
         }
     );
-    Ok(CaseRun { oracle, line, summary })
+    let req_headers = first.map(|c| c.headers.iter().map(|(n, _)| n.clone()).collect()).unwrap_or_default();
+    Ok(CaseRun { oracle, line, summary, req_headers })
 }
 
 // ------------------------------------------------------------------------------------------------
@@ -901,7 +937,7 @@ fn run_flow(fc: &FlowCase) -> Result<CaseRun, String> {
             }
         }
     }
-    Ok(CaseRun { oracle, line: None, summary })
+    Ok(CaseRun { oracle, line: None, summary, req_headers: Vec::new() })
 }
 
 // ------------------------------------------------------------------------------------------------
@@ -983,6 +1019,7 @@ struct Report {
     outcomes: BTreeMap<String, u64>,
     wall_by_adapter: BTreeMap<String, f64>,
     fault_outcomes: BTreeMap<String, BTreeSet<String>>,
+    request_headers_seen: BTreeMap<String, BTreeSet<String>>,
     variant_agree: u64,
     variant_differ: u64,
 }
@@ -1018,6 +1055,9 @@ fn process(rep: &mut Report, d: &mut Driver, case_json: Value, runner: &dyn Fn()
         }
     };
     let (mut sigs, mut tag) = judge(&run, d);
+    if !run.req_headers.is_empty() {
+        rep.request_headers_seen.entry(who.clone()).or_default().extend(run.req_headers.iter().cloned());
+    }
     *rep.wall_by_adapter.entry(who).or_default() += t_case.elapsed().as_secs_f64();
     let mut summary = run.summary.clone();
     // a signature already reproduced MAX_PER_SIGNATURE times is counted without further re-runs
@@ -1171,6 +1211,7 @@ fn main() {
         "ureq_glue_observed": ureq_glue,
         "wall_by_adapter_s": rep.wall_by_adapter,
         "fault_outcomes": rep.fault_outcomes,
+        "request_headers_seen": rep.request_headers_seen,
         "error_variant_as_modelled": {"agree": rep.variant_agree, "differ": rep.variant_differ,
             "note": "informational: HttpClientError variant vs the glue model's; not part of the property"},
         "dimensions": {"adapters": ADAPTERS, "request_bodies": REQ_BODIES, "statuses": STATUSES, "content_types": CTS, "reply_bodies": BODIES, "faults": FAULTS, "flows": FLOWS},
